@@ -5,7 +5,7 @@ from __future__ import annotations
 import itertools
 
 from .. import automata as A
-from .. import e1, impl, linelang, refmodel
+from .. import blocks, e1, impl, linelang, refmodel
 from ..chartgen import UNICODE_TRAPS, mk
 from ..linelang import BL
 
@@ -69,6 +69,7 @@ def plan(tier, seed):
     TIER = tier
     L = 5 if tier == "quick" else 6
     shards = [("automata", L), ("tokens", "N"), ("tokens", "S"), ("tokens", "E"), ("groups", "N"), ("groups", "S"), ("groups", "E"), ("nearmiss",)]
+    shards += [("blocks", B, part) for B in blocks.BLOCKS for part in range(4)]
     return dict(shards=shards, bounds=dict(alphabet_size=len(A.SIGMA), conformance_string_length=L, string_length="unbounded (automata)"), budget_s=900)
 
 
@@ -145,7 +146,9 @@ def check_e2e(ctx, body, why, sync=("0 = TS 4", "0 = B 1000000000"), events=()):
 
 def run_shard(shard, ctx):
     kind = shard[0]
-    if kind == "automata":
+    if kind == "blocks":
+        blocks.sweep(ctx, "track-line-at-block-boundary", _block_text, "ExpertSingle", blocks=(shard[1],), part=shard[2], parts=4, vias=("file",) if shard[1] > 8192 else ("file", "path"))
+    elif kind == "automata":
         _automata(ctx, shard[1])
     elif kind == "tokens":
         _tokens(ctx, shard[1])
@@ -299,7 +302,16 @@ def _nearmiss(ctx):
                 check_e2e(ctx, body, "near-miss line %r next to a %s line" % (nm, k))
 
 
+BLOCK_TRACK = [("%d = N %d %d" % (24 * i, i % 5, 3 * (i % 4)), "%d = N 7 %d" % (24 * i, i), "%d = S 2 %d" % (24 * i, 10 + i), "%d = E solo%d" % (24 * i, i), "%d = N %d 0" % (24 * i, (i + 2) % 5), "%d = N 6 0" % (24 * i))[i % 6] for i in range(36)]
+
+
+def _block_text(pad):
+    return mk(res=192, song_extra=['Name = "%s"' % ("x" * pad)], sync=["0 = TS 4", "0 = B 120000", "300 = B 90000"], events=['0 = E "section a"'], tracks=[("ExpertSingle", BLOCK_TRACK), ("HardDrums", ["5 = N 1 0"])])
+
+
 def replay(case):
+    if "shape" in case:
+        return e1.replay_model_case(case, "track-line-at-block-boundary")
     order = linelang.kind_classes("track")
     try:
         order = linelang.dispatch_order(linelang.analyse("track", KINDS))
